@@ -240,6 +240,8 @@ package css
 //@   loop 1 decreases len(l.r.buf) - l.r.pos
 
 //@ func Lexer.consumeIdentlike
+// url( ws* body ws* ): all white space after the parenthesis is skipped before the body is scanned
+//@   callsite css.Lexer.consumeUnquotedURL[F,C07] @leading-ws-skipped: !cWS(arg0.r.buf[arg0.r.pos])
 //@   ensures[F,C07] @function: result == FunctionToken ==> l.r.buf[l.r.pos-1] == '('
 //@   ensures[F,C07] @url-close: result == URLToken ==> l.r.buf[l.r.pos-1] == ')' || l.r.pos >= len(l.r.buf)-1
 //@   ensures[F,C07] @badurl-close: result == BadURLToken ==> l.r.buf[l.r.pos-1] == ')' || l.r.pos >= len(l.r.buf)-1
@@ -368,6 +370,8 @@ package css
 //@   loop * candidate[T] cpM(p) <= old(cpM(p))
 
 //@ func Parser.parseDeclarationList
+// a comment in front of the declaration is skipped first, then the empty declarations (';'): no comment is left when they are
+//@   loop 1 invariant[F] @comment-first: p.tt != CommentToken
 //@   loop * candidate p.tt != CommentToken
 //@   loop * invariant old(p.tt) != SemicolonToken && old(p.tt) != CommentToken ==> p.tt == old(p.tt)
 //@   loop * candidate len(p.state) == old(len(p.state))
